@@ -11,6 +11,7 @@ import (
 	"os"
 	"sort"
 	"strings"
+	"syscall"
 	"testing"
 	"time"
 
@@ -31,18 +32,20 @@ func TestMain(m *testing.M) {
 }
 
 type Case struct {
-	What    string `json:"what"` // log | sampler | trigger
-	T       int    `json:"threads"`
-	K       int    `json:"per_thread"`
-	Sync    bool   `json:"sync_writer,omitempty"`
-	PanicAt int    `json:"writer_panics_at,omitempty"` // the destination's n-th Write panics (the logging thread recovers, as an HTTP server would): that event is lost, nothing else is, and nobody hangs
-	Dest    string `json:"dest,omitempty"`             // "" plain writer | console (ConsoleWriter, pooled render buffer) | multi (MultiLevelWriter over two writers)
-	N       uint32 `json:"sampler_n,omitempty"`
-	Kind    string `json:"schedule_kind"`
-	Bytes   []byte `json:"bytes,omitempty"`
-	Seed    uint64 `json:"seed,omitempty"`
-	D       int    `json:"d,omitempty"`
-	Choices []int  `json:"dfs_choices,omitempty"`
+	What     string `json:"what"` // log | sampler | trigger
+	T        int    `json:"threads"`
+	K        int    `json:"per_thread"`
+	Sync     bool   `json:"sync_writer,omitempty"`
+	Explicit bool   `json:"explicit_trigger,omitempty"` // trigger workload: thread 0 ends with Trigger() instead of an error-level line
+	ErrAt    int    `json:"writer_eagain_at,omitempty"` // the destination's n-th Write reports a transient errno (EAGAIN) with a partial count: still exactly one call per event
+	PanicAt  int    `json:"writer_panics_at,omitempty"` // the destination's n-th Write panics (the logging thread recovers, as an HTTP server would): that event is lost, nothing else is, and nobody hangs
+	Dest     string `json:"dest,omitempty"`             // "" plain writer | console (ConsoleWriter, pooled render buffer) | multi (MultiLevelWriter over two writers)
+	N        uint32 `json:"sampler_n,omitempty"`
+	Kind     string `json:"schedule_kind"`
+	Bytes    []byte `json:"bytes,omitempty"`
+	Seed     uint64 `json:"seed,omitempty"`
+	D        int    `json:"d,omitempty"`
+	Choices  []int  `json:"dfs_choices,omitempty"`
 }
 
 type replayChoices struct {
@@ -124,6 +127,7 @@ var shapes = []func(ls []*zerolog.Logger, t, i int){
 }
 
 type recWriter struct {
+	errAt   int
 	panicAt int
 	calls   int
 	got     []string
@@ -152,6 +156,9 @@ func (w *recWriter) Write(p []byte) (int, error) {
 	}
 	w.got = append(w.got, s)
 	w.inside--
+	if w.calls == w.errAt {
+		return len(p) / 2, &os.SyscallError{Syscall: "write", Err: syscall.EAGAIN}
+	}
 	return len(p), nil
 }
 
@@ -203,7 +210,10 @@ func runLog(c *Case, ch vsched.Chooser) (string, *vsched.Sched) {
 			shapes[shapeOf(t, i)](sl, t, i)
 		}
 	}
-	ws := []*recWriter{{yields: true, panicAt: c.PanicAt}, {yields: true}}
+	ws := []*recWriter{{yields: true, panicAt: c.PanicAt, errAt: c.ErrAt}, {yields: true}}
+	oldEH := zerolog.ErrorHandler
+	zerolog.ErrorHandler = func(error) {}
+	defer func() { zerolog.ErrorHandler = oldEH }()
 	s := vsched.Run(ch, 40000, false, func() {
 		ls := mkLoggers(ws, c.Sync, c.Dest)
 		done := 0
@@ -347,14 +357,35 @@ func trigLevel(t, i, k int) zerolog.Level {
 
 func runTrigger(c *Case, ch vsched.Chooser) (string, *vsched.Sched) {
 	d := &dest{}
+	heldForSure := map[string]bool{} // debug lines whose WriteLevel had returned when Trigger() was called
+	inFlight := map[string]bool{}    // debug lines whose WriteLevel had started by then: they may already sit in the buffer, anywhere
 	s := vsched.Run(ch, 20000, false, func() {
 		tw := &zerolog.TriggerLevelWriter{Writer: d, ConditionalLevel: zerolog.DebugLevel, TriggerLevel: zerolog.ErrorLevel}
 		done := 0
+		returned, started := map[string]bool{}, map[string]bool{}
 		for t := 0; t < c.T; t++ {
 			t := t
 			vsched.GoNamed(fmt.Sprintf("trig%d", t), func() {
 				for i := 0; i < c.K; i++ {
-					tw.WriteLevel(trigLevel(t, i, c.K), []byte(fmt.Sprintf("g%d-%d\n", t, i)))
+					if c.Explicit && t == 0 && i == c.K-1 {
+						for ln := range returned {
+							heldForSure[ln] = true
+						}
+						for ln := range started {
+							inFlight[ln] = true
+						}
+						tw.Trigger()
+						continue
+					}
+					ln := fmt.Sprintf("g%d-%d\n", t, i)
+					lvl := trigLevel(t, i, c.K)
+					if lvl == zerolog.DebugLevel {
+						started[ln] = true
+					}
+					tw.WriteLevel(lvl, []byte(ln))
+					if lvl == zerolog.DebugLevel {
+						returned[ln] = true
+					}
 				}
 				done++
 			})
@@ -366,6 +397,37 @@ func runTrigger(c *Case, ch vsched.Chooser) (string, *vsched.Sched) {
 	}
 	if d.overlap {
 		return "destination entered by two threads at the same time", s
+	}
+	if c.Explicit {
+		// every line reaches the destination once, and the lines that were certainly held when
+		// Trigger() was called come out as one block: nothing written meanwhile gets in between
+		if len(d.log) != c.T*c.K-1 {
+			return fmt.Sprintf("destination has %d of %d lines after an explicit Trigger()", len(d.log), c.T*c.K-1), s
+		}
+		first, last, nHeld := -1, -1, 0
+		seen := map[string]bool{}
+		for i, ln := range d.log {
+			if seen[ln.s] {
+				return fmt.Sprintf("line %q delivered twice", ln.s), s
+			}
+			seen[ln.s] = true
+			if heldForSure[ln.s] {
+				if first < 0 {
+					first = i
+				}
+				last = i
+				nHeld++
+			}
+		}
+		if nHeld != len(heldForSure) {
+			return fmt.Sprintf("%d of the %d lines held when Trigger() was called reached the destination", nHeld, len(heldForSure)), s
+		}
+		for i := first; nHeld > 0 && i <= last; i++ {
+			if !inFlight[d.log[i].s] {
+				return fmt.Sprintf("line %q, written after Trigger() was called (or above ConditionalLevel), was delivered in the middle of the block of lines held at that moment (positions %d..%d)", d.log[i].s, first, last), s
+			}
+		}
+		return "", s
 	}
 	if len(d.log) != c.T*c.K {
 		return fmt.Sprintf("destination has %d of %d lines although a trigger-level line was written", len(d.log), c.T*c.K), s
@@ -456,6 +518,7 @@ func TestDFS(t *testing.T) {
 	for _, w := range whats() {
 		switch w {
 		case "log":
+			cfgs = append(cfgs, cfg{Case{What: w, T: 2, K: 2, Sync: true, ErrAt: 2}, b})
 			cfgs = append(cfgs, cfg{Case{What: w, T: 2, K: 2, Sync: true, PanicAt: 1}, b}, cfg{Case{What: w, T: 2, K: 2, Sync: true, PanicAt: 2}, b}, cfg{Case{What: w, T: 2, K: 2, PanicAt: 2}, b})
 			cfgs = append(cfgs, cfg{Case{What: w, T: 2, K: 2, Dest: "console"}, b}, cfg{Case{What: w, T: 2, K: 2, Dest: "multi"}, b})
 			cfgs = append(cfgs, cfg{Case{What: w, T: 2, K: 1}, 3}, cfg{Case{What: w, T: 2, K: 2}, b}, cfg{Case{What: w, T: 2, K: 2, Sync: true}, b}, cfg{Case{What: w, T: 3, K: 1}, b}, cfg{Case{What: w, T: 2, K: 3}, b})
@@ -471,6 +534,7 @@ func TestDFS(t *testing.T) {
 			}
 		case "trigger":
 			cfgs = append(cfgs, cfg{Case{What: w, T: 2, K: 2}, 3}, cfg{Case{What: w, T: 2, K: 3}, 2}, cfg{Case{What: w, T: 3, K: 2}, 2})
+			cfgs = append(cfgs, cfg{Case{What: w, T: 2, K: 3, Explicit: true}, 2}, cfg{Case{What: w, T: 3, K: 3, Explicit: true}, 2})
 			if ev.Thorough() {
 				cfgs = append(cfgs, cfg{Case{What: w, T: 3, K: 3}, 2}, cfg{Case{What: w, T: 2, K: 4}, 3})
 			}
@@ -509,10 +573,13 @@ func TestRapidSchedules(t *testing.T) {
 	rapid.Check(t, func(rt *rapid.T) {
 		c := &Case{What: rapid.SampledFrom(ws).Draw(rt, "what"), T: rapid.IntRange(2, 4).Draw(rt, "T"), K: rapid.IntRange(1, 5).Draw(rt, "K")}
 		c.Sync = rapid.Bool().Draw(rt, "sync")
+		c.Explicit = c.What == "trigger" && rapid.IntRange(0, 2).Draw(rt, "explicit") == 0
 		if c.What == "log" {
 			c.Dest = rapid.SampledFrom([]string{"", "", "console", "multi"}).Draw(rt, "dest")
 			if c.Dest == "" && rapid.IntRange(0, 3).Draw(rt, "panics") == 0 {
 				c.PanicAt = rapid.IntRange(1, 3).Draw(rt, "panicat")
+			} else if c.Dest != "console" && rapid.IntRange(0, 3).Draw(rt, "eagain") == 0 {
+				c.ErrAt = rapid.IntRange(1, 3).Draw(rt, "errat")
 			}
 		}
 		c.N = uint32(rapid.IntRange(0, 5).Draw(rt, "N"))
